@@ -106,6 +106,21 @@ class Ctx:
             self._views[fn.path] = inline.expand(self.facts, fn, self.keep_set() - {fn})
         return self._views[fn.path]
 
+    def units(self):
+        """analysis units for whole-crate scans of rules that reason inside one body: every kept function (public API, trait methods, roles, closures) with
+        its private helpers folded in, plus the helpers themselves as they stand (a helper is also looked at on its own; rules that count sites use
+        `origin` to count each source block once)"""
+        if not hasattr(self, '_units'):
+            keep = self.keep_set()
+            self._units = [self.x(f) if f in keep else f for f in self.facts.fns]
+        return self._units
+
+    @staticmethod
+    def origin(fn, bb):
+        """(path of the function the block was written in, its block index there)"""
+        o = getattr(fn, 'origin', None)
+        return tuple(o[bb]) if o else (fn.path, bb)
+
     def du(self, fn):
         key = (fn.path, id(fn))
         if key not in self._du:
